@@ -361,6 +361,12 @@ for pi in range(NPARTS):
         f.write(f'[package]\nname = "part{pi}"\nversion = "0.1.0"\nedition = "2021"\npublish = false\n\n[dependencies]\n' + DEPS % "../../..")
     L = [PRELUDE]
     line_no = PRELUDE.count("\n")
+    # the two nested helper types are derived shapes too
+    pl = PRELUDE.split("\n")
+    for nm in ("Inner", "InnerT"):
+        for li, text in enumerate(pl):
+            if text.startswith("pub struct " + nm + " ") or text.startswith("pub struct " + nm + "("):
+                regions.append({"name": nm, "file": f"part{pi}/src/lib.rs", "first_line": li, "last_line": li + 1, "definition": "#[derive(ConvertSaveload)] " + text, "prelude": True})
     for (nm, text) in all_defs:
         if part_of[nm] != pi:
             continue
